@@ -257,6 +257,9 @@ def move : P String := do
   let fixedOK := fvals.all front.contains && front.all fvals.contains
   let v : Verdict := { tag := if n ≤ 1 then "trivial" else s!"move front{front.length}{shape}" }
   let v := v.failIf badTag.isSome s!"MultiObjectiveVariableElimination action_out_of_range"
+  -- a failure of a RECORDED kind must be explained by the as-found model (which shares the recorded defect): when the model
+  -- and the library disagree the clause name gets a suffix, so that an open finding cannot mask a different break
+  let shape := if sameSets then shape else shape ++ "_and_model_mismatch"
   let v := v.failIf (!missing.isEmpty) s!"MultiObjectiveVariableElimination pareto_vector_missing{shape} model_agrees_with_impl={sameSets} repaired_model_meets_spec={fixedOK} missing={missing.map (·.map showQ)} returned={implV.map (·.map showQ)}"
   let v := v.failIf (!extra.isEmpty) s!"MultiObjectiveVariableElimination non_pareto_vector_returned{shape} extra={extra.map (·.map showQ)}"
   let v := match badVal with
